@@ -55,6 +55,10 @@ pub fn c07(a: &Args) {
         let mut asets: Vec<Vec<i32>> = vec![vec![]];
         for _ in 0..3 { let len = 1 + r2.below(n.min(3) as usize); asets.push((0..len).map(|_| { let v = 1 + r2.below(n as usize) as i32; if r2.chance(0.5) { v } else { -v } }).collect()); }
         if r2.chance(0.2) { asets.push((0..22).map(|_| { let v = 1 + r2.below(n as usize) as i32; v }).collect()); }
+        // more than 20 literals that are all decided by the model itself (core features selected, dead ones deselected):
+        // the request is equivalent to the empty one, whatever earlier requests left in the nodes
+        { let total = tt.count(); let fixed: Vec<i32> = (1..=n as i32).filter_map(|v| { let c = tt.count_with(&[v]); if c == total { Some(v) } else if c == 0 { Some(-v) } else { None } }).collect();
+          if !fixed.is_empty() && total > 0 { asets.push((0..(21 + r2.below(4))).map(|i| fixed[i % fixed.len()]).collect()); } }
         // a feature in both polarities (no model contains both), alone and next to another literal
         { let v = 1 + r2.below(n as usize) as i32; let w = 1 + r2.below(n as usize) as i32; asets.push(if r2.chance(0.5) { vec![v, -v] } else { vec![-v, w, v] }); }
         for al in asets {
